@@ -663,6 +663,12 @@ func streamCHist(c *Ctx) {
 			sl = sh[0].SequenceLen()
 		}
 		c.emit("css export", okOr(err, fmt.Sprintf("ok %s seqlen=%d", digList(sharesToBytes(sh)), sl)))
+		if err == nil {
+			// C10 after any history: the exported shares are byte-identical to the specified encoding of
+			// the writes (the driver answers with the independent Spec.compactSeq)
+			c.emit(fmt.Sprintf("spec compact %s %s", hx(ns.Bytes()), hxList(writes)), "ok "+digList(sharesToBytes(sh)))
+			c.emit("css export", fmt.Sprintf("ok %s seqlen=%d", digList(sharesToBytes(sh)), sl)) // restores register R
+		}
 		// C12: the per-transaction ranges after ANY history (exports and counts between writes) are the
 		// shares holding the transaction's length-prefixed bytes
 		{
